@@ -26,7 +26,9 @@ RULE = ('histories of 1..14 events over 4 node ids: received vectors (newer/olde
         'is handed to the model as the component bytes, and a separate stream mutates valid encodings: unknown critical / '
         'non-critical elements, illegal integer widths, non-minimal Type/Length, truncation, swapped fields, empty or '
         'mistyped names, other outer types, random bytes; always one complete TLV element), '
-        'publications and timer expiries; non-trivial = the history contains at least one accepted vector that '
+        'publications and timer expiries; a targeted stream: the own node id repeated in one vector (over-claiming first / '
+        'last / in the middle), sequence numbers up to 2^64-1, stop/start cycles, a vector or a publication arriving at the '
+        'instant the timer is due, over-claiming vectors inside a suppression period; non-trivial = the history contains at least one accepted vector that '
         'raises an entry or an emission decision taken in suppression; distinct = distinct event lists')
 
 BASE = '/sync'
